@@ -749,7 +749,7 @@ Definition stmt_stepA (cfg : config) (code pre : list N) (n : qname) (a : sargs)
           then match ref_more (cores_of (a_kvs a)) pre_pk with
                | Some (prev, vt) =>
                    Emit (mkEntry (blen prev) (fst (line_col_go prev 1 1)) (snd (line_col_go prev 1 1))
-                                 (parse_u32 (trim (p_is_ws TP) vt)) (short_name nm) KStructuredPreExisting None None)
+                                 (ref_value TP vt) (short_name nm) KStructuredPreExisting None None)
                | None =>
                    let sfx := Some (match a_kvs a with Some _ => nth 0 (p_suffixes TP) [] | None => nth 1 (p_suffixes TP) [] end) in
                    let pfx := Some (fst (p_fmt_prefix TP) ++ p_ref_key TP ++ snd (p_fmt_prefix TP))%list in
@@ -1011,7 +1011,7 @@ Theorem stmt_stepA_structured cfg code pre n a :
       (* the first key-value with key `ref` and a value: the entry is AT that value, whose text, trimmed,
          is read as the reference (None = not an integer: unusable, never "missing") *)
       Emit (mkEntry (blen prev) (fst (line_col_go prev 1 1)) (snd (line_col_go prev 1 1))
-                    (parse_u32 (trim (p_is_ws TP) vt)) (short_name nm) KStructuredPreExisting None None)
+                    (ref_value TP vt) (short_name nm) KStructuredPreExisting None None)
   | None =>
       let sfx := Some (match a_kvs a with Some _ => nth 0 (p_suffixes TP) [] | None => nth 1 (p_suffixes TP) [] end) in
       let pfx := Some (fst (p_fmt_prefix TP) ++ p_ref_key TP ++ snd (p_fmt_prefix TP))%list in
